@@ -90,8 +90,16 @@ def check_search(rep, atoms, cutoff, req, default, want_groups, ctx):
     kw = {}
     if req is not None:
         kw["required_size"] = req
+    passed = None
     if default is not None:
-        kw["default_array"] = default.copy()
+        # the user's own array object is handed over, and it has been used before: for an earlier search of the same
+        # system that admitted components of every size
+        passed = default.copy()
+        kw["default_array"] = passed
+        try:
+            search_molecules(atoms, cutoff, default_array=passed)
+        except Exception:  # noqa: BLE001
+            pass
     try:
         lab = np.asarray(search_molecules(atoms, cutoff, **kw))
     except Exception as ex:  # noqa: BLE001
@@ -100,6 +108,9 @@ def check_search(rep, atoms, cutoff, req, default, want_groups, ctx):
         return
     if lab.shape != (n,):
         rep.violation("search:shape", f"label array has shape {lab.shape}, expected ({n},)", ctx)
+        return
+    if passed is not None and not np.array_equal(passed, default):
+        rep.violation("search:default-array-overwritten", f"search_molecules wrote into the caller's default array: {passed.tolist()} (was {default.tolist()}) ({ctx['what']})", ctx)
         return
     dflt = np.full(n, -1) if default is None else default
     grouped = {i for g in want_groups for i in g}
@@ -119,6 +130,63 @@ def check_search(rep, atoms, cutoff, req, default, want_groups, ctx):
         if i not in grouped and int(lab[i]) != int(dflt[i]):
             rep.violation("search:unadmitted-atom-not-default", f"atom {i} is in no admitted component but got label {int(lab[i])}, default {int(dflt[i])} ({ctx['what']})", ctx)
             return
+
+
+class _Reject:
+    def evaluate(self, context):
+        context.atoms.get_potential_energy()
+        return False
+
+    def to_dict(self):
+        return {"name": "_Reject"}
+
+
+def swap_layer(rep, rs, ncases):
+    """Delete + re-insert as the library itself composes them (AtomsOps.tla: Reinsert after Delete, with atoms
+    APPENDED in between): one grand-canonical trial that deletes a chosen particle AND inserts a new one is rejected;
+    the atoms must be the original ones (order, every per-atom array and dtype)."""
+    from calcs import Harmonic
+    from quansino.mc.gcmc import GrandCanonical
+    from quansino.moves.composite import CompositeMove
+    from quansino.moves.exchange import ExchangeMove
+    from quansino.operations.displacement import Translation
+
+    done = 0
+    for k in range(ncases):
+        n = int(rs.randint(2, 9))
+        atoms = rich_atoms(n, rs, ident_tags=False)
+        atoms.set_cell([9.0, 9.5, 10.0])
+        atoms.pbc = True
+        size = int(rs.choice([1, 1, 2]))
+        lab = (np.arange(n) // size).astype(int)
+        if k % 3 == 0:
+            lab = lab[rs.permutation(n)]  # a particle's atoms need not be contiguous
+        atoms.calc = Harmonic(k=0.1, centers=atoms.positions.copy(), eps=0.01)
+        tmpl = rich_atoms(size, rs, ident_tags=False)
+        orig = atoms.copy()
+        target = int(rs.choice(np.unique(lab)))
+        order = k % 2  # delete-then-insert or insert-then-delete inside the one trial
+        ctx = {"what": f"n={n} labels={lab.tolist()} delete label {target}, template of {size} atom(s), {'delete+insert' if order == 0 else 'insert+delete'}", "n": n, "labels": lab.tolist(), "target": target}
+        try:
+            mc = GrandCanonical(atoms, exchange_atoms=tmpl, temperature=300.0, chemical_potential=0.0, number_of_exchange_particles=len(np.unique(lab)), max_cycles=1, seed=int(rs.randint(1, 10**6)))
+            e_del = ExchangeMove(lab.copy(), Translation(), bias_towards_insert=0.0)
+            e_ins = ExchangeMove(lab.copy(), Translation(), bias_towards_insert=1.0)
+            e_del.to_delete_label = target
+            mc.add_move(CompositeMove([e_del, e_ins] if order == 0 else [e_ins, e_del]), criteria=_Reject(), name="swap")
+            mc.run(1)
+            hist = mc.move_history[-1][1] if mc.move_history else None
+            err = same_arrays(orig, mc.atoms)
+        except Exception as ex:  # noqa: BLE001
+            err = f"raised {type(ex).__name__}: {ex}"
+            hist = False
+        rep.count(("swap", k), nontrivial=True)
+        done += 1
+        if hist is not False:
+            rep.error(f"swap layer: the trial was not rejected (history {hist!r})")
+            continue
+        if err:
+            rep.violation(f"reinsert:rejected-delete-and-insert:{'del+ins' if order == 0 else 'ins+del'}:{err.split(' ')[0]}", f"after a rejected trial that deleted one particle and inserted another the atoms are not the original ones: {err} ({ctx['what']})", ctx)
+    return done
 
 
 def run(tier: str) -> int:
@@ -226,6 +294,8 @@ def run(tier: str) -> int:
         d = [None, np.full(n, -3)][k % 2]
         rep.count(("rand-se", k))
         check_search(rep, a, [rc] * n, req, d, want, {"what": f"random n={n} rc={rc} filter={fkey}", "positions": a.positions.tolist()})
+    nswap = swap_layer(rep, rs, 60 if tier == "quick" else 600)
+    rep.add(rejected_delete_and_insert_trials=nswap)
     rep.add(states=r.distinct, transitions=r.generated, traces_validated_against_impl=nre + nse, exhaustive=True, reinsert_cases=nre, search_cases=nse, random_cases=2 * nrand,
             rule=f"TLC enumerates every index sequence (all subsets in all orders) of sequences of length <= {maxn} and every graph on <= {maxn} vertices x 5 size filters; each case is replayed on ase.Atoms carrying tags, momenta, charges, masses, float (N,2), int8 and int64 arrays / realised geometrically with one species per vertex and a per-pair cutoff dict, default arrays cycling through None, all -1, all -7, distinct negatives; non-trivial = non-empty index list / non-empty edge set; plus {nrand} random larger cases of each kind (scalar cutoff vs independent union-find)")
     rep.assumptions += ["deleted atoms are obtained as the context does: deleted = atoms[I]; del atoms[I]", "label values themselves are free: only 'same non-negative label <=> same admitted component' and 'others at the default' are checked"]
